@@ -107,7 +107,7 @@ class C13(scen.PairProp):
                 evB[idx][0] += k * I
                 detail = [r, b, k]
             end = a + I * scen.blow_index(N, gap, rows, 0) + 0.5
-            maxb = rng.choice([5, 15, 30])
+            maxb = rng.choice([5, 15, 30, 3, 2])
 
             def mk(evs, server=server, pre=pre, inertia=inertia, maxb=maxb, mode=mode):
                 if server:
